@@ -469,7 +469,8 @@ func (db *MemDB) storeAggAttestationUnsafe(unsignedData core.UnsignedData) error
 			return errors.New("clashing data root", z.Str("existing", hex.EncodeToString(existingDataRoot[:])), z.Str("provided", hex.EncodeToString(providedDataRoot[:])))
 		}
 
-		db.aggDuties[key] = provided
+		// Keep the aggregate stored first: AwaitAggAttestation must keep answering the same
+		// aggregate for a key (same data root, possibly other aggregation bits/signature).
 	} else {
 		db.aggDuties[key] = aggAtt
 		db.aggKeysBySlot[slot] = append(db.aggKeysBySlot[slot], key)
